@@ -173,7 +173,16 @@ Fixpoint shown_ids (t : list gev) : list N :=
 
 Definition gstep (g : gstate) (o : gop) : list gev * gstate :=
   let s := g_srv g in
-  if s_dead s then ([], g) else
+  if s_dead s then
+    (* accept() has returned the connection error; the only thing the application may still try is shutdown(n):
+       ConnectionInner::shutdown starts with the get_conn_error test *)
+    match o, s_err s with
+    | Shutdown n, Some e =>
+        if shutdown_error_guard then ([EShutdown n; EErr e], g)
+        else let '(w, s') := do_shutdown s n in (EShutdown n :: w, {| g_srv := s'; g_live := g_live g |})
+    | _, _ => ([], g)
+    end
+  else
   match o with
   | Arrive id => ([EArrive id], {| g_srv := with_inq s (s_inq s ++ [id]); g_live := g_live g |})
   | Shutdown n => let '(w, s') := do_shutdown s n in (EShutdown n :: w, {| g_srv := s'; g_live := g_live g |})
